@@ -556,9 +556,13 @@ func (r *runner) callTx(db *gorm.DB, b *Block, root bool) (st status) {
 			r.tracef("enter B%d", b.id)
 			defer func() {
 				p := recover()
+				at := r.where
 				r.inj = r.inj[:0]
 				r.where = fmt.Sprintf("B%d.exit", b.id)
 				if p != nil {
+					if _, ours := p.(*panicVal); !ours {
+						r.fail("unexpected panic", "inside B%d at %s: a panic the program did not throw: %v", b.id, at, p)
+					}
 					bodyPanicked, bodyPV = true, p
 					panic(p)
 				}
@@ -651,6 +655,17 @@ type TreeCase struct {
 	Faults   []string `json:"faults,omitempty"`
 }
 
+// execTreeSafe = execTree, with any panic that escapes it (none should: every
+// call into gorm is guarded) turned into a violation of that execution.
+func execTreeSafe(c *TreeCase, x *mc.Exec) (o *treeObs) {
+	defer func() {
+		if p := recover(); p != nil {
+			o = &treeObs{Kind: "unexpected panic", Detail: fmt.Sprintf("escaped the execution: %v", p), NViol: 1, Outcome: "panic/escaped"}
+		}
+	}()
+	return execTree(c, x)
+}
+
 // execTree runs one execution (program x configuration x fault choices).
 func execTree(c *TreeCase, x *mc.Exec) (o *treeObs) {
 	o = &treeObs{}
@@ -707,8 +722,10 @@ func execTree(c *TreeCase, x *mc.Exec) (o *treeObs) {
 	}
 	// the handle must still be usable
 	env.Rec.Reset()
-	ferr := env.DB.Create(&Row{K: "zz-after", V: 2}).Error
-	if ferr != nil {
+	var ferr error
+	if pv, panicked := guard(func() { ferr = env.DB.Create(&Row{K: "zz-after", V: 2}).Error }); panicked {
+		r.fail("unexpected panic", "follow-up Create on the same handle panicked: %v", pv)
+	} else if ferr != nil {
 		r.fail("follow-up write failed", "Create on the same handle after the block: %v", ferr)
 	} else if got2, err := keysOutside(env); err != nil || !sameKeys(got2, addKey(got, "zz-after")) {
 		r.fail("follow-up write not stored", "table %s err=%v", keyList(got2), err)
